@@ -360,10 +360,13 @@ class TableIds:
 def make_lookup_encode(name):
     def call(ex, f, args, kwargs):
         # result = code of the name in the table, or Exception if the name is unknown: kept abstract
+        # (the contract proved for every lookup_encode_<TABLE> by LookupEncodeTask: an absent value and a text that is no
+        # name of the table raise, a name gives one of its codes)
         v = args[0]
         code = ex.fresh(f'lookup_code_{name}', 'int')
         unknown = ex.fresh(f'lookup_unknown_{name}', 'bool')
-        ex.collect_raise('Exception', unknown, f'lookup_encode_{name}')
+        absent = z3.Or(*[g for g, x in alts_of(v) if x is None] + [z3.BoolVal(False)])
+        ex.collect_raise('Exception', z3.Or(unknown.t, absent), f'lookup_encode_{name}')
         return code
     return call
 
